@@ -127,6 +127,17 @@ def evaluate(case, prop=None):
     probes = stats['probes']
     vs += check_transparency(case, run_s, run_p, probes)
     vs += check_transport(case, run_p, probes)
+    if case['kind'] == 'struct' and any(v['rule'] == 'C13.shutdown' for v in vs):
+        # A `_move` onto a key that already exists in the target store replaces the
+        # compartment there in a way no statement describes (C09/C10 stop judging such a
+        # history at that point, see struct.Inconclusive).  The processes it displaces
+        # are neither deleted nor divided away and Engine.end() cannot know them: their
+        # workers stop when the displaced objects are garbage collected.  Not judged.
+        st2 = {}
+        struct.check(base, run_s, st2)
+        if st2.get('probes', {}).get('left-the-domain'):
+            vs = [v for v in vs if v['rule'] != 'C13.shutdown']
+            probes['left-the-domain'] = 1
     mp = run_p.extra.get('mp') or {}
     probes['sync-points'] = mp.get('sync_points', 0)
     probes['task-switches'] = mp.get('switches', 0)
